@@ -1,61 +1,23 @@
 (* Model-side driver for the container engine (C19): runs the extracted model and the
-   extracted list specification over the same cases, compares with the implementation. *)
-open DsaModel
-(*INCLUDE conv.inc*)
-
-let status_str = function
-  | Ok _ -> "0"
-  | Err s -> string_of_z s
-  | UB _ -> "UB"
-
-(* returns (model tokens, spec tokens, class) *)
-let run_arr ops =
-  let a = ref arr_create in
-  let spec = ref [] in
-  let mt = ref [] and st = ref [] in
-  let ub = ref false in
-  let nontriv = ref 0 in
-  let emit_m s = mt := s :: !mt and emit_s s = st := s :: !st in
-  let opt_str = function None -> "N" | Some v -> string_of_z v in
-  let ins idx v =
-    (match arr_insertdata_at true !a (nat_of_int idx) (z_of_int v) with
-     | Ok a' -> a := a'; emit_m "0"; incr nontriv
-     | Err s -> emit_m (string_of_z s)
-     | UB _ -> ub := true; emit_m "UB");
-    (match spec_insert !spec (nat_of_int idx) (z_of_int v) with
-     | Some l -> spec := l; emit_s "0"
-     | None -> emit_s "2") in
-  let rem idx =
-    (match arr_remove_at !a (nat_of_int idx) with
-     | Ok (a', v) -> a := a'; emit_m ("0:" ^ string_of_z v); incr nontriv
-     | Err s -> emit_m (string_of_z s)
-     | UB _ -> ub := true; emit_m "UB");
-    (match spec_remove !spec (nat_of_int idx) with
-     | Some (l, v) -> spec := l; emit_s ("0:" ^ string_of_z v)
-     | None -> emit_s "2") in
-  List.iter (fun op ->
-    if op <> "" then
-    match split_on ':' op with
-    | ["il"; v] -> ins (int_of_nat (arr_len !a)) (int_of_string v)
-    | ["if"; v] -> ins 0 (int_of_string v)
-    | ["ia"; i; v] -> ins (int_of_string i) (int_of_string v)
-    | ["rf"] -> rem 0
-    | ["rl"] -> let n = int_of_nat (arr_len !a) in
-      if n = 0 then (emit_m "2"; emit_s "2") else rem (n - 1)
-    | ["ra"; i] -> rem (int_of_string i)
-    | ["at"; i] -> emit_m (opt_str (arr_at !a (nat_of_int (int_of_string i))));
-      emit_s (opt_str (nth_error !spec (nat_of_int (int_of_string i))))
-    | ["first"] -> emit_m (opt_str (arr_at !a O)); emit_s (opt_str (nth_error !spec O))
-    | ["last"] -> let n = int_of_nat (arr_len !a) in
-      emit_m (if n = 0 then "N" else opt_str (arr_at !a (nat_of_int (n - 1))));
-      let sn = List.length !spec in
-      emit_s (if sn = 0 then "N" else opt_str (nth_error !spec (nat_of_int (sn - 1))))
-    | ["len"] -> emit_m (string_of_int (int_of_nat (arr_len !a))); emit_s (string_of_int (List.length !spec))
-    | _ -> emit_m "BADOP"; emit_s "BADOP") ops;
-  let dump l = "dump=" ^ String.concat "," (List.map string_of_z l) in
-  emit_m (dump (arr_abs !a)); emit_s (dump !spec);
-  (String.concat " " (List.rev !mt), String.concat " " (List.rev !st),
-   if !ub then "model-ub" else if !nontriv >= 2 then "arr" else "trivial")
+   extracted specification of the case's container kind (registered by dsa_<kind>.ml) over
+   the same cases and compares with the implementation's output.
+   Every "R" line the implementation prints for a case (the skip list prints one per RNG seed)
+   must equal the model's line (else DIFF) and the specification's line (else FAIL). *)
+let read_lines file =
+  let ic = open_in file in
+  let rec go acc = match input_line ic with l -> go (l :: acc) | exception End_of_file -> close_in ic; List.rev acc in
+  go []
+let impl_table file =
+  let tbl = Hashtbl.create 1024 in
+  List.iter (fun l ->
+    match String.index_opt l ' ' with
+    | None -> ()
+    | Some i ->
+      (match int_of_string_opt (String.sub l 0 i) with
+       | None -> ()
+       | Some k -> Hashtbl.add tbl k (String.sub l (i + 1) (String.length l - i - 1)))) (read_lines file);
+  tbl
+let impl_lines tbl k = List.rev (Hashtbl.find_all tbl k)
 
 let () =
   let cases = read_lines Sys.argv.(1) in
@@ -65,15 +27,16 @@ let () =
     | None -> Printf.printf "CASE %d trivial-badcase\n" k
     | Some i ->
       let kind = String.sub line 0 i in
-      let ops = split_on ';' (String.sub line (i + 1) (String.length line - i - 1)) in
-      let (m, s, cls) = match kind with
-        | "arr" -> run_arr ops
-        | _ -> ("BADKIND", "BADKIND", "trivial-badkind") in
+      let ops = String.split_on_char ';' (String.sub line (i + 1) (String.length line - i - 1)) in
+      let (m, s, cls) = match Dsa_reg.find kind with
+        | Some run -> run ops
+        | None -> ("BADKIND", "BADKIND", "trivial-badkind") in
       Printf.printf "CASE %d %s\n" k cls;
       let got = List.filter_map (fun l -> if String.length l > 2 && String.sub l 0 2 = "R " then Some (String.sub l 2 (String.length l - 2)) else None) (impl_lines impl k) in
       (match got with
-       | [g] ->
-         if g <> m then Printf.printf "DIFF %d model=[%s] impl=[%s]\n" k m g;
-         if g <> s then Printf.printf "FAIL %d %s-not-adt spec=[%s] impl=[%s]\n" k kind s g
-       | _ -> if not (List.exists (fun l -> String.length l >= 7 && String.sub l 0 7 = "MONITOR") (impl_lines impl k)) then
-           Printf.printf "DIFF %d model=[%s] impl=<no result line>\n" k m)) cases
+       | [] -> if not (List.exists (fun l -> String.length l >= 7 && String.sub l 0 7 = "MONITOR") (impl_lines impl k)) then
+           Printf.printf "DIFF %d model=[%s] impl=<no result line>\n" k m
+       | _ ->
+         List.iter (fun g ->
+           if g <> m then Printf.printf "DIFF %d model=[%s] impl=[%s]\n" k m g;
+           if g <> s then Printf.printf "FAIL %d %s-not-adt spec=[%s] impl=[%s]\n" k kind s g) got)) cases
